@@ -1097,6 +1097,64 @@ fn run_fanout_family(cx: &Ctx, seed: u64, threads: usize, thorough: bool) {
     });
 }
 
+/// overlap family: pattern sets built from substrings of one another (suffix-of-prefix relations, shared
+/// heads and tails), 3..5 patterns of length <= 5 over small alphabets; all three kinds; haystacks: every
+/// string of length <= 4 over the alphabet plus concatenations of patterns with one letter changed.
+fn run_overlap_family(cx: &Ctx, seed: u64, sets: usize, threads: usize) {
+    let per = (sets + threads - 1) / threads;
+    std::thread::scope(|sc| {
+        for t in 0..threads {
+            sc.spawn(move || {
+                let mut rng = Rng(seed.wrapping_mul(0x2545f4914f6cdd1d).wrapping_add(t as u64 * 104729) | 1);
+                for it in 0..per {
+                    let alpha: &[u8] = if it % 2 == 0 { b"abc" } else { b"abcde" };
+                    let letter = |r: &mut Rng| alpha[r.below(alpha.len() as u64) as usize];
+                    let blen = 2 + rng.below(4) as usize;
+                    let b: Vec<u8> = (0..blen).map(|_| letter(&mut rng)).collect();
+                    let mut pats: Vec<Vec<u8>> = vec![b.clone()];
+                    let k = 2 + rng.below(3) as usize;
+                    let mut guard = 0;
+                    while pats.len() < 1 + k && guard < 50 {
+                        guard += 1;
+                        let src = pats[rng.below(pats.len() as u64) as usize].clone();
+                        let i = rng.below(src.len() as u64) as usize;
+                        let j = i + 1 + rng.below((src.len() - i) as u64) as usize;
+                        let mut p: Vec<u8> = src[i..j].to_vec();
+                        match rng.below(4) { 0 => p.push(letter(&mut rng)), 1 => { let l = p.len(); p[l - 1] = letter(&mut rng); } 2 => p.insert(0, letter(&mut rng)), _ => {} }
+                        if p.len() <= 5 && !pats.contains(&p) { pats.push(p); }
+                    }
+                    // random registration order
+                    for i in (1..pats.len()).rev() { let j = rng.below(i as u64 + 1) as usize; pats.swap(i, j); }
+                    let vals: Vec<u32> = (0..pats.len() as u32).map(|i| 3 + i).collect();
+                    let al: Vec<Vec<u8>> = alpha.iter().map(|&x| vec![x]).collect();
+                    let mut hays = all_strings(&al, 1, if alpha.len() == 3 { 5 } else { 3 });
+                    for p in &pats { for q in &pats { let mut h = p.clone(); let l = h.len(); h[l - 1] = letter(&mut rng); h.extend_from_slice(q); hays.push(h);
+                                                       let mut h2 = p.clone(); h2.extend_from_slice(q); h2.push(letter(&mut rng)); hays.push(h2); } }
+                    for kind in KINDS { check_set(cx, &pats, &vals, kind, &[16], &hays, true); }
+                }
+            });
+        }
+    });
+}
+
+/// boundary-character family (char-wise lengths and offsets): characters at the edges of the UTF-8 length classes
+fn run_boundary_chars(cx: &Ctx) {
+    let cs: Vec<char> = vec!['\u{7f}', '\u{80}', '\u{7ff}', '\u{800}', '\u{d7ff}', '\u{e000}', '\u{ffff}', '\u{10000}', '\u{10001}', '\u{10ffff}', 'a'];
+    for &c in &cs { for &d in &cs {
+        let p1: String = [c].iter().collect();
+        let p2: String = ['a', c, d].iter().collect();
+        let p3: String = [d, 'b'].iter().collect();
+        let mut pats: Vec<Vec<u8>> = vec![p2.into_bytes(), p1.into_bytes(), p3.into_bytes()];
+        pats.dedup();
+        let set: BTreeSet<Vec<u8>> = pats.iter().cloned().collect();
+        if set.len() != pats.len() { continue; }
+        let vals: Vec<u32> = vec![7, 8, 9];
+        let mut hays: Vec<Vec<u8>> = vec![];
+        for x in [format!("xa{}{}b", c, d), format!("{}{}{}", c, d, c), format!("a{}{}{}b", c, d, d), format!("α{}a{}{}", d, c, d)] { hays.push(x.into_bytes()); }
+        for kind in KINDS { check_set(cx, &pats, &vals, kind, &[16], &hays, true); }
+    } }
+}
+
 fn replay(path: &str) -> i32 {
     let text = std::fs::read_to_string(path).expect("replay file");
     // tiny extractor for the fields we wrote ourselves
@@ -1168,6 +1226,8 @@ fn main() {
         run_wide(&cx, seed, 64, threads);
         run_bytes_family(&cx, threads, true);
         run_fanout_family(&cx, seed, threads, true);
+        run_overlap_family(&cx, seed, 40000, threads);
+        run_boundary_chars(&cx);
     } else {
         run_small(&cx, &a1, &[0x02], 3, 3, 6, false, &nfbs, threads, Some((seed, 3)));
         run_small(&cx, &a4, b"c", 3, 3, 6, true, &nfbs, threads, Some((seed, 3)));
@@ -1176,6 +1236,8 @@ fn main() {
         run_wide(&cx, seed, 16, threads);
         run_bytes_family(&cx, threads, false);
         run_fanout_family(&cx, seed, threads, false);
+        run_overlap_family(&cx, seed, 4000, threads);
+        run_boundary_chars(&cx);
     }
     check_conversion(&cx);
     let vt_pats = vec![b(b"ab"), b(b"b"), b(b"abc"), b(b"c"), b("é".as_bytes())];
